@@ -1,7 +1,7 @@
 //@ include prelude/header.rs
 //@ unit U02 paint.rs core: emit, paint_buffered_minus_and_plus_lines, prepare (C01, C02, C11)
 verus! {
-//@ set PAINTER_EXTRA ,config,line_numbers_data,highlighter
+//@ set PAINTER_EXTRA ,config,highlighter
 //@ include prelude/sm_env.rs
 
 //@ type src/minusplus.rs MinusPlus
